@@ -217,4 +217,11 @@ Theorem accepting_challenge_formula (h : K) gs (p : cproof K) c : cp_C p <> f0 -
   cp_verify h gs p c = true -> c = (commit h gs (cp_rs p) (cp_rbf p) - cp_T p) / cp_C p.
 Proof. intros HC V. apply cp_verify_iff in V. rewrite V. field. exact HC. Qed.
 
+
+Theorem request_sign_unblind (sk : skey K) (pk : pkey K) ms bf kbf ks c u :
+  key_ok K sk pk -> pk_g1 pk <> f0 -> u <> f0 -> length ms = length ks ->
+  exists v, req_verify pk (req_prove pk ms bf kbf ks c) c = Some v /\
+            verify pk ms (unblind bf (blind_sign sk pk u v)) = true.
+Proof. intros Hk Hg Hu Hl. exists (blind pk ms bf). split; [now apply req_complete | now apply (blind_sign_unblind K)]. Qed.
+
 End P.
